@@ -1026,12 +1026,10 @@ theorem stepTimescale_good (s : List Nat) (len idx : Nat) (st : St) (hinv : st.I
     (stepTimescale s len idx st).Good := by
   unfold stepTimescale
   split
+  · simp [Step.Good]
   · split
     · simp [Step.Good]
-    · split
-      · simp [Step.Good]
-      · simp only [Step.Good]; unfold St.Inv at hinv ⊢; exact hinv
-  · exact hinv
+    · simp only [Step.Good]; unfold St.Inv at hinv ⊢; exact hinv
 
 theorem stepHours_good (s : List Nat) (idx : Nat) (st : St) (hinv : st.Inv) :
     (stepHours s idx st).Good := by
@@ -1181,7 +1179,7 @@ theorem fromFormatStr_no_panic (O : Oracles) (sIn fmt : List Nat) : fromFormatSt
 
 def iso8601Std : Format := ⟨[⟨.Year, some 45, none, false⟩, ⟨.Month, some 45, none, false⟩, ⟨.Day, some 84, none, false⟩,
   ⟨.Hour, some 58, none, false⟩, ⟨.Minute, some 58, none, false⟩, ⟨.Second, some 46, none, false⟩,
-  ⟨.Subsecond, some 32, none, false⟩]⟩
+  ⟨.Subsecond, none, none, false⟩]⟩
 
 theorem iso8601Std_is_const : constByName? "ISO8601_STD" = some iso8601Std := by decide +kernel
 
